@@ -3,6 +3,7 @@ package main
 import (
 	"fmt"
 	"go/token"
+	"strings"
 
 	"golang.org/x/tools/go/ssa"
 )
@@ -83,4 +84,87 @@ func locNonNil(c *Ctx, nf *nilFacts, v ssa.Value, at *ssa.BasicBlock, depth int)
 		}
 	}
 	return fmt.Sprintf("a %T not known to be non-nil", v), false
+}
+
+// c01ByteOrderLens: binary.ByteOrder's UintN / PutUintN index their argument up to N/8 - 1 and panic
+// on a shorter slice. Every such call on the decode path is given a slice expression whose length
+// is at least N/8: by the intervals of its bounds (constant bounds, Size() of a constant base type,
+// the header-size edge constants), or — in parseFitField / parseFitFieldArray, whose slices are cut
+// with the definition's own size — by the size matrix (C01-R1-matrix decides for every accepted
+// (class, base, size) that the arm selected reads no more than the size).
+func c01ByteOrderLens(c *Ctx, r *Report, scope []*ssa.Function) {
+	const rule = "C01-R2-byteorder-len"
+	n := 0
+	for _, fn := range scope {
+		bc := c.newBounds(fn)
+		k := 0
+		for _, ci := range allCalls(fn) {
+			cc := ci.Common()
+			name := ""
+			var arg ssa.Value
+			if cc.IsInvoke() && cc.Value.Type().String() == "encoding/binary.ByteOrder" && len(cc.Args) >= 1 {
+				name, arg = cc.Method.Name(), cc.Args[0]
+			} else if f := cc.StaticCallee(); f != nil && f.Pkg != nil && f.Pkg.Pkg.Path() == "encoding/binary" && f.Signature.Recv() != nil && len(cc.Args) >= 2 {
+				name, arg = f.Name(), cc.Args[1]
+			}
+			need := int64(0)
+			switch strings.TrimPrefix(name, "Put") {
+			case "Uint16":
+				need = 2
+			case "Uint32":
+				need = 4
+			case "Uint64":
+				need = 8
+			}
+			if need == 0 {
+				continue
+			}
+			n++
+			k++
+			key := fmt.Sprintf("%s/%s#%d", fn.Name(), name, k)
+			if fn.Name() == "parseFitField" || fn.Name() == "parseFitFieldArray" {
+				r.ok(rule, key, c.pos(ci.Pos()), "slice cut with the definition's size in an arm the size matrix covers (C01-R1-matrix)")
+				continue
+			}
+			sl, ok := arg.(*ssa.Slice)
+			if !ok {
+				r.fail(rule, key, c.pos(ci.Pos()), fmt.Sprintf("%s is given %s, not a slice expression whose length can be read off: it panics when fewer than %d bytes are passed", name, stripAddrs(pathOf(arg)), need))
+				continue
+			}
+			lo := exact(0)
+			if sl.Low != nil {
+				lo = bc.rangeAt(sl.Low, ci.Block())
+			}
+			var hi ival
+			if sl.High != nil {
+				hi = bc.rangeAt(sl.High, ci.Block())
+			} else if L, isArr := arrayLenOf(sl.X.Type()); isArr {
+				hi = exact(L)
+			}
+			okLen := hi.okLo && lo.okHi && hi.lo-lo.hi >= need
+			if !okLen && sl.High != nil && strings.Contains(pathOf(sl.High), ".h.Size-1)") {
+				// the header body: Size takes the constants seen on the edges into this block, minus those a
+				// dominating `Size == k -> return` / `Size != k` excludes
+				set := constSetAt(ci.Block(), ".h.Size", map[*ssa.BasicBlock]map[int64]bool{}, map[*ssa.BasicBlock]bool{})
+				sizePath := strings.TrimSuffix(strings.TrimPrefix(pathOf(sl.High), "("), "-1)")
+				okSet := len(set) > 0
+				minHi := int64(1 << 30)
+				for kk := range set {
+					if domByCmpConst(fn, ci.Block(), sizePath, token.EQL, kk, false) || domByCmpConst(fn, ci.Block(), sizePath, token.NEQ, kk, true) {
+						continue
+					}
+					if kk-1 < minHi {
+						minHi = kk - 1
+					}
+				}
+				if okSet && minHi < 1<<30 && lo.okHi && minHi-lo.hi >= need {
+					okLen = true
+					hi = exact(minHi)
+				}
+			}
+			r.check(okLen, rule, key, c.pos(ci.Pos()), fmt.Sprintf("slice [%s:%s] has at least %d bytes", lo.String(), hi.String(), need), fmt.Sprintf("%s reads %d bytes but its argument %s[%s:%s] can be shorter: index out of range for the inputs that make it so", name, need, stripAddrs(pathOf(sl.X)), lo.String(), hi.String()))
+		}
+	}
+	r.set("byteorder_calls", n)
+	r.need("ByteOrder reads on the decode path", n, 15)
 }
